@@ -344,13 +344,43 @@ Fixpoint leqb (a b : list N) : bool :=
   end.
 Definition seen_in (e : list N) (seen : list (list N)) : bool := existsb (leqb e) seen.
 
+(* a set of encodings, as a trie *)
+Inductive trie := TNode (present : bool) (children : list (N * trie)).
+Definition trie0 : trie := TNode false [].
+Fixpoint tmem (k : list N) (t : trie) {struct k} : bool :=
+  match t with
+  | TNode b ch =>
+      match k with
+      | [] => b
+      | x :: k' =>
+          (fix go (l : list (N * trie)) : bool :=
+             match l with
+             | [] => false
+             | (y, t') :: l' => if N.eqb x y then tmem k' t' else go l'
+             end) ch
+      end
+  end.
+Fixpoint tadd (k : list N) (t : trie) {struct k} : trie :=
+  match t with
+  | TNode b ch =>
+      match k with
+      | [] => TNode true ch
+      | x :: k' =>
+          TNode b ((fix go (l : list (N * trie)) : list (N * trie) :=
+                      match l with
+                      | [] => [(x, tadd k' trie0)]
+                      | (y, t') :: l' => if N.eqb x y then (y, tadd k' t') :: l' else (y, t') :: go l'
+                      end) ch)
+      end
+  end.
+
 Fixpoint ins_cov (x : N) (l : list N) : list N :=
   match l with
   | [] => [x]
   | y :: l' => if N.ltb x y then x :: l else if N.eqb x y then l else y :: ins_cov x l'
   end.
 
-Record xres := mkX { x_finals : list state; x_seen : list (list N); x_cov : list N; x_fuel_out : bool }.
+Record xres := mkX { x_finals : list state; x_seen : trie; x_cov : list N; x_fuel_out : bool }.
 
 (* depth-first exploration of every interleaving from [todo]; [finals] = states without successor *)
 Fixpoint explore (v : variant) (np nj : nat) (fuel : nat) (todo : list state) (r : xres) : xres :=
@@ -361,11 +391,11 @@ Fixpoint explore (v : variant) (np nj : nat) (fuel : nat) (todo : list state) (r
       | [] => r
       | st :: rest =>
           let e := encode np nj st in
-          if seen_in e (x_seen r) then explore v np nj f rest r
+          if tmem e (x_seen r) then explore v np nj f rest r
           else
             let sc := succs v np nj st in
             let r' := mkX (match sc with [] => st :: x_finals r | _ => x_finals r end)
-                          (e :: x_seen r)
+                          (tadd e (x_seen r))
                           (fold_left (fun c p => ins_cov (snd p) c) sc (x_cov r))
                           (x_fuel_out r) in
             explore v np nj f (map fst sc ++ rest) r'
@@ -373,7 +403,7 @@ Fixpoint explore (v : variant) (np nj : nat) (fuel : nat) (todo : list state) (r
   end.
 
 Definition quiescent_from (v : variant) (np nj fuel : nat) (sts : list state) (cov : list N) : xres :=
-  explore v np nj fuel sts (mkX [] [] cov false).
+  explore v np nj fuel sts (mkX [] trie0 cov false).
 
 (* a thread that was given work and has not finished it *)
 Definition pending (st : state) (t : tid) : bool :=
